@@ -314,6 +314,9 @@ def check_clause(v, fmt, ins, outs, allfin, prog):
         return f"non-finite result {got} for finite exact value"
     d = ulp_dist(got, want, fmt)
     if d > bound:
+        if clause == "fma" and abs(xs[0] * xs[1]) > L / 2 and abs(exact) <= abs(xs[0] * xs[1]) / 4:
+            # region of the fix_overflow fallback (Dekker's product would overflow: xyh = x*y, xyl = 0) combined with cancellation by z
+            return f"overflow-fallback with cancellation: off by {d} ULP (> {bound}); |x*y| > largest/2 and |x*y+z| <= |x*y|/4"
         return f"off by {d} ULP (> {bound})"
     return None
 
